@@ -70,4 +70,10 @@ CLAIMS.update({
         "note": TB + " Not modelled: the Go scheduler, context cancellation.",
     },
 })
+CLAIMS.update({
+    "C05": {
+        "text": "Theorems hop_by_hop_complete (regenerated set ⊇ RFC list), hop_by_hop_removed, stored_entry_is_origin_minus_hop (what is written is the reply's status and body unchanged and its fields minus hop-by-hop, only after a complete body read), served_status_and_body, end_to_end_fields_preserved (every stored field except the cache's own three and qualified no-cache fields is returned with exactly the stored values), parsed_entry_has_no_hop_by_hop. PARTIAL: the entry serialisation is net/http (Codec hypothesis): its round trip is tested end to end — chunked, close-delimited, HTTP/1.0, bodies with CR/LF/NUL/framing look-alikes up to 1 MiB, multi-valued and odd fields, memory / file-system / encrypted / reopened backends — by the byte-level monitor and the correspondence.",
+        "note": TB + " HTTP/2 and a real http.Transport against a TCP origin are not exercised (the scripted origin parses wire bytes with http.ReadResponse).",
+    },
+})
 NOT_APPLICABLE = {("C%02d" % i): "check not built yet (work in progress; DESIGN.md §10 gives the order of construction)" for i in range(1, 21)}
